@@ -253,6 +253,34 @@ func (t *Table) indexKeyTypeError(it Item) bool {
 	return false
 }
 
+// keySizeError reports whether a key attribute (of the table or of an index)
+// holds a string or binary value longer than DynamoDB allows (2048 bytes for a
+// partition key, 1024 for a sort key).
+func (t *Table) keySizeError(it Item) bool {
+	tooLong := func(attr string, limit int) bool {
+		v, ok := it[attr]
+		if !ok || attr == "" {
+			return false
+		}
+		switch v.T {
+		case "S":
+			return len(v.S) > limit
+		case "B":
+			return len(v.B) > limit
+		}
+		return false
+	}
+	if tooLong(t.Schema.Hash, 2048) || tooLong(t.Schema.Range, 1024) {
+		return true
+	}
+	for i := range t.Schema.Indexes {
+		if tooLong(t.Schema.Indexes[i].Hash, 2048) || tooLong(t.Schema.Indexes[i].Range, 1024) {
+			return true
+		}
+	}
+	return false
+}
+
 // View returns the items visible through the base table ("" index) or an index.
 func (t *Table) View(index string) []Item {
 	var out []Item
@@ -805,6 +833,9 @@ func (t *Table) put(op Op, pr *parsedReq) Result {
 	if t.indexKeyTypeError(op.Item) {
 		return Result{Spec: true, WeakWhy: "index key attribute of the wrong type"}
 	}
+	if t.keySizeError(op.Item) {
+		return Result{Spec: true, WeakWhy: "key attribute value longer than DynamoDB allows"}
+	}
 	t.Items[k] = CloneItem(op.Item)
 	return Result{}
 }
@@ -837,6 +868,9 @@ func (t *Table) update(op Op, pr *parsedReq) Result {
 	}
 	if t.indexKeyTypeError(ur.Item) {
 		return Result{Spec: true, WeakWhy: "index key attribute of the wrong type"}
+	}
+	if t.keySizeError(ur.Item) {
+		return Result{Spec: true, WeakWhy: "key attribute value longer than DynamoDB allows"}
 	}
 	t.Items[k] = ur.Item
 	return Result{Item: CloneItem(ur.Item)}
@@ -983,6 +1017,9 @@ func (db *DB) batchWrite(op Op) Result {
 					}
 					if t.indexKeyTypeError(r.Put) {
 						return &Result{Spec: true, WeakWhy: "index key attribute of the wrong type"}
+					}
+					if t.keySizeError(r.Put) {
+						return &Result{Spec: true, WeakWhy: "key attribute value longer than DynamoDB allows"}
 					}
 				} else if _, ok := t.KeyOf(r.Delete); !ok {
 					r := errRes(ErrValidation, "malformed key in delete request")
